@@ -6,14 +6,14 @@ package main
 // repetitions harmless. The model is compared on the accounting outcome of each run.
 
 import (
-	"path/filepath"
-	"crypto/x509"
 	"crypto/tls"
+	"crypto/x509"
 	"encoding/binary"
 	"encoding/json"
 	"fmt"
 	"math/rand"
 	"net"
+	"path/filepath"
 	"runtime"
 	"strings"
 	"sync"
@@ -269,6 +269,7 @@ func closeChecks(r *Result) {
 	}
 	closeDuringRequest(r)
 	idleReapingAllListeners(r)
+	refusedPeersAreNotCounted(r)
 	stopUnderConnectStorm(r, stormRounds)
 	if h1 != 0 || a1 != 0 {
 		r.violate(Violation{Class: "C17/close-with-inflight-handler", What: fmt.Sprintf("a LOOKUP still inside the backend when Close returned put %d handle(s) and %d attribute-cache entr(ies) back afterwards", h1, a1),
@@ -477,5 +478,52 @@ func idleReapingAllListeners(r *Result) {
 		}
 		s.Stop()
 		n.Close()
+	}
+}
+
+// refusedPeersAreNotCounted: a connection the host filter refuses at accept has ended; it must not occupy a
+// MaxConnections slot. Disallowed peers (127.0.0.2, when the machine lets a client bind it) connect more often than
+// the limit, then an allowed client must be served and the counters must be back to what it alone accounts for.
+func refusedPeersAreNotCounted(r *Result) {
+	n, err := absnfs.New(NewRefFS(), absnfs.ExportOptions{AllowedIPs: []string{"127.0.0.1"}, MaxConnections: 2, IdleTimeout: 5 * time.Minute, MaxWorkers: 2})
+	must(err)
+	defer n.Close()
+	s, err := absnfs.NewServer(absnfs.ServerOptions{Port: 0, Hostname: "127.0.0.1", UseRecordMarking: true})
+	must(err)
+	s.SetHandler(n)
+	must(s.Listen())
+	defer s.Stop()
+	addr := fmt.Sprintf("127.0.0.1:%d", s.GetPort())
+	refused := 0
+	for i := 0; i < 5; i++ {
+		d := net.Dialer{Timeout: time.Second, LocalAddr: &net.TCPAddr{IP: net.ParseIP("127.0.0.2")}}
+		c, err := d.Dial("tcp", addr)
+		if err != nil {
+			r.Notes = append(r.Notes, "refused-peers scenario skipped: cannot dial from 127.0.0.2: "+err.Error())
+			return
+		}
+		// the server hangs up on a peer that is not listed
+		c.SetReadDeadline(time.Now().Add(2 * time.Second))
+		var b [1]byte
+		if _, err := c.Read(b[:]); err != nil && !strings.Contains(err.Error(), "timeout") {
+			refused++
+		}
+		c.Close()
+	}
+	time.Sleep(50 * time.Millisecond)
+	cnt, inMap := absnfs.VerifConnCounts(s)
+	r.noteCase("refused-peers", true)
+	r.count("refused-peers")
+	if refused == 5 && (cnt != 0 || inMap != 0) {
+		r.violate(Violation{Class: "C17/refused-connection-stays-counted", What: fmt.Sprintf("5 connections from 127.0.0.2 were refused by the host filter (AllowedIPs 127.0.0.1) and have ended, yet connCount=%d, activeConns=%d", cnt, inMap), Ops: []string{"refused-peers"}})
+		return
+	}
+	conn, err := net.DialTimeout("tcp", addr, 2*time.Second)
+	if err == nil {
+		_, err = rmCall(conn, 31, progNFS, 3, 0, nil)
+		conn.Close()
+	}
+	if err != nil {
+		r.violate(Violation{Class: "C17/refused-connection-stays-counted", What: fmt.Sprintf("after 5 refused connections from an unlisted address (MaxConnections 2) the listed client 127.0.0.1 is not served: %v (connCount=%d, activeConns=%d)", err, cnt, inMap), Ops: []string{"refused-peers"}})
 	}
 }
